@@ -17,6 +17,7 @@ THEOREMS = [
     ("EG.props.C12", "C12_hit_equals_miss"),
     ("EG.props.C12", "C12_transparent"),
     ("EG.props.C12", "C12_no_cross_request_influence"),
+    ("EG.props.C12", "C12_transparent_across_reloads"),
     ("EG.props.C12", "C12_refuted_q_cache_key_concat"),
     ("EG.props.C12", "C12_refuted_q_cache_headerless_after_header"),
     ("EG.props.C12", "C12_refuted_q_cache_status_before_ipfilter"),
@@ -33,8 +34,9 @@ CASES = {"quick": 300, "thorough": 8000}
 RULE = ("case = one HTTPServer spec (as C01, IP filters at the three levels in most cases, header-conditioned entries ahead of "
         "header-less ones sharing the path condition) with cacheSize in {1,2,8,100} x a pool of requests with variants sharing or "
         "colliding in host+method+path (other client IP, other/absent headers, host byte moved into the method) x a sequence of 5-50 "
-        "draws from the pool, run on twin muxes (cache on / off); non-trivial = spec accepted and >=1 step; class = 1 + bit set of "
-        "(some cache hit, some eviction, transparency violated, twin saw 403, 200, 404/405, 400); distinct = distinct (group, input) hashes")
+        "draws from the pool interleaved with reload steps applied to both twins (identical spec, same rules with other cacheSize / "
+        "filters, changed or different rules), run on twin muxes (cache on / off); non-trivial = spec accepted and >=1 step; class = 1 + bit set of "
+        "(some cache hit, some eviction, transparency violated, twin saw 403, 200, 404/405, 400, history has a reload); distinct = distinct (group, input) hashes")
 TRUSTED_BASE = [
     "model coq/model/Mux.v is hand-written; tied to pkg/object/httpserver/mux.go by the per-run correspondence (sampled), "
     "including the cache's key set after every request",
@@ -71,22 +73,34 @@ def coq_header(kf_open):
 def encode(c):
     i, o = c["in"], c["obs"]
     if c["grp"] == "cache":
-        outs = o.get("outs") or []
-        return Rec(cc_sv=_c01.enc_server(i), cc_tabs=_c01.enc_tabs(i), cc_pool=_c01.enc_reqs(i),
-                   cc_hostnames=_c01.enc_hostnames(i), cc_seq=L([Nat(k) for k in (i.get("seq") or [])[:len(outs)]] if outs else []),
-                   cc_accepted=B(o["accepted"]),
-                   cc_obs=L([T(_c01.enc_obs(x["cached"]), _c01.enc_obs(x["twin"]),
-                               L([T(S(k[0]), S(k[1]), S(k[2])) for k in x.get("keys") or []])) for x in outs]))
+        outs = list(o.get("outs") or [])
+        ops, k = [], 0
+        for v in (i.get("seq") or []) if o["accepted"] else []:
+            if v < 0:
+                ops.append(C("CReload", Nat(-(v + 1))))
+            elif k < len(outs):
+                x = outs[k]
+                k += 1
+                ops.append(C("CReq", Nat(v), T(_c01.enc_obs(x["cached"]), _c01.enc_obs(x["twin"]),
+                                             L([T(S(y[0]), S(y[1]), S(y[2])) for y in x.get("keys") or []]))))
+            else:
+                break
+        svs = [_c01.enc_server(i, sv, si) for si, sv in enumerate(_c01.servers(i))]
+        return Rec(cc_svs=L(svs), cc_tabs=_c01.enc_tabs(i), cc_pool=_c01.enc_reqs(i),
+                   cc_hostnames=_c01.enc_hostnames(i), cc_ops=L(ops), cc_accepted=B(o["accepted"]))
     raise ValueError(c["grp"])
 
 
 def distribution(cases):
     d = _c01.distribution(cases)
-    d["cache_sizes"], d["steps"], d["pool"], d["diverging_steps"] = {}, 0, 0, 0
+    d["cache_sizes"], d["steps"], d["pool"], d["diverging_steps"], d["reloads"], d["cases_with_reload"] = {}, 0, 0, 0, 0, 0
     for c in cases:
         cs = str(c["in"]["server"].get("cacheSize"))
         d["cache_sizes"][cs] = d["cache_sizes"].get(cs, 0) + 1
         d["pool"] += len(c["in"].get("reqs") or [])
+        nr = sum(1 for v in c["in"].get("seq") or [] if v < 0)
+        d["reloads"] += nr
+        d["cases_with_reload"] += nr > 0
         for x in c["obs"].get("outs") or []:
             d["steps"] += 1
             d["diverging_steps"] += x["cached"] != x["twin"]
